@@ -360,3 +360,4 @@ PROP = Prop(
     subs=[Sub('patch', body_patch, strategy=case_patch, quick=1500, thorough=20000),
           Sub('project', body_project, strategy=case_project, quick=1200, thorough=15000)],
     design_ref='DESIGN.md section 6, C06')
+PROP.rule += ('. Added in round 2: the boundary split is stated as index arrays, by name with the constrained part handed to condense as a dictionary of views (pieces share DOFs where they meet), or by names given on the coarse mesh and carried through refined().')
